@@ -287,6 +287,9 @@ func runClean(_ []string) {
 			continue
 		}
 		for _, entry := range entries {
+			if !entry.Type().IsRegular() {
+				continue // counter files and reports are regular files
+			}
 			// TODO: use slices.ContainsFunc once it is available in all supported Go
 			// versions.
 			remove := false
